@@ -7,6 +7,10 @@
 //	                one case per function: "<id>\tF <dump>\t<go oracle>"
 //	-extra src      print the generated programs (debugging)
 //
+// -nwide / -nwiderand: systematic wide shapes (cfgx/wide.go) and random programs in the wide
+// profile: > 255 pool values / locals / upvalues / elements / arguments in front of or inside
+// the construct under test, so that the 16-bit opcode variants are emitted.
+//
 // -abort compiles with checker.AdditionalAbortChecks (used by the C33 static stream).
 package main
 
@@ -26,6 +30,8 @@ import (
 var abort = flag.Bool("abort", false, "compile with AdditionalAbortChecks")
 var only = flag.Int("only", -1, "bias generated statements to one construct")
 var norepo = flag.Bool("norepo", false, "skip the repository sources (main.elk.test)")
+var nwide = flag.Int("nwide", 0, "number of systematic wide shapes (container x construct x pad)")
+var nwiderand = flag.Int("nwiderand", 0, "number of random programs in the wide profile")
 var repo = flag.String("repo", "/repo", "repository root (for the shipped Elk sources)")
 
 func main() {
@@ -74,7 +80,7 @@ func main() {
 		fn, diag, pan := cfgx.Compile(origin, src, *abort)
 		switch {
 		case pan != "":
-			note(origin, "compiler-panic", pan)
+			note(origin, "compiler-panic", pan+" SRC: "+src)
 		case fn == nil:
 			note(origin, "rejected", diag)
 		default:
@@ -116,8 +122,33 @@ func main() {
 			}
 		}
 		// 3. wide frames / many upvalues (16-bit opcode variants)
-		for _, w := range [][2]int{{8, 5}, {260, 3}, {300, 40}} {
+		for _, w := range [][2]int{{8, 5}, {260, 3}, {300, 40}, {300, 270}} {
 			compileSrc(fmt.Sprintf("wide%d_%d", w[0], w[1]), cfgx.WideProgram(w[0], w[1]))
+		}
+		if *nwide > 0 {
+			for _, w := range cfgx.WideCorners() {
+				compileSrc(w.ID, w.Src)
+			}
+		}
+	}
+
+	// 3b. systematic wide shapes and random programs in the wide profile (own seeded streams)
+	{
+		rw := hx.NewRng(o.Seed ^ 0x57494445)
+		for _, w := range cfgx.WideShapes(rw, *nwide) {
+			if o.Extra == "src" {
+				fmt.Printf("### %s\n%s\n", w.ID, w.Src)
+				continue
+			}
+			compileSrc(w.ID, w.Src)
+		}
+		for i := 0; i < *nwiderand; i++ {
+			src, tags := cfgx.WideRandomProgram(rw)
+			if o.Extra == "src" {
+				fmt.Printf("### widegen%d %s\n%s\n", i, tags, src)
+				continue
+			}
+			compileSrc(fmt.Sprintf("widegen%d[%s]", i, tags), src)
 		}
 	}
 
